@@ -24,7 +24,13 @@ tail -3 /tmp/confirm-$id.without.log
 git apply $md/patch.diff
 echo "demo rc with=$rc_with without=$rc_without"
 echo "-- existing suite WITH change"
-go test -vet=off -count=1 -timeout 120m -skip 'ZZ|Demo|Seeded|TestDB_Open_InitialMmapSize' . ./internal/... ./cmd/... > /tmp/confirm-$id.suite.log 2>&1; rc_suite=$?
-grep -E "^(ok|FAIL|--- FAIL)" /tmp/confirm-$id.suite.log | head
+# the root package is run from a uniquely named binary (other jobs on this machine pkill "bbolt.test")
+go test -c -vet=off -o /tmp/cfm-$id.rootbin . > /tmp/confirm-$id.suite.log 2>&1
+( /tmp/cfm-$id.rootbin -test.count=1 -test.timeout 120m -test.skip 'ZZ|Demo|Seeded|TestDB_Open_InitialMmapSize' >> /tmp/confirm-$id.suite.log 2>&1 ); rc_root=$?
+echo "root package rc=$rc_root" >> /tmp/confirm-$id.suite.log
+go test -vet=off -count=1 -timeout 60m ./internal/... ./cmd/... >> /tmp/confirm-$id.suite.log 2>&1; rc_rest=$?
+rm -f /tmp/cfm-$id.rootbin
+rc_suite=$(( rc_root + rc_rest ))
+grep -E "^(ok|FAIL|--- FAIL|PASS|root package)" /tmp/confirm-$id.suite.log | head -12
 echo "RESULT demo_with=$rc_with demo_without=$rc_without suite=$rc_suite"
 } > $log 2>&1
